@@ -16,6 +16,7 @@ import (
 	"net/url"
 	"os"
 	"testing"
+	"time"
 
 	"github.com/transparency-dev/formats/log"
 	f_note "github.com/transparency-dev/formats/note"
@@ -83,7 +84,7 @@ func TestVerifReplayDistribute(t *testing.T) {
 			}
 		}
 	}
-	for _, status := range []int{200, 404, 500, 302} {
+	for _, status := range []int{200, 404, 500, 302, 307, 308} {
 		type put struct {
 			method, path string
 			body         []byte
@@ -92,11 +93,11 @@ func TestVerifReplayDistribute(t *testing.T) {
 		srv := httptest.NewServer(http.HandlerFunc(func(w http.ResponseWriter, r *http.Request) {
 			b, _ := io.ReadAll(r.Body)
 			puts = append(puts, put{r.Method, r.URL.EscapedPath(), b})
-			if status == 302 && r.URL.Path != "/elsewhere" {
-				http.Redirect(w, r, "/elsewhere", http.StatusFound)
+			if status/100 == 3 && r.URL.Path != "/elsewhere" {
+				http.Redirect(w, r, "/elsewhere", status)
 				return
 			}
-			if status == 302 {
+			if status/100 == 3 {
 				w.WriteHeader(200)
 				return
 			}
@@ -115,6 +116,9 @@ func TestVerifReplayDistribute(t *testing.T) {
 		seen := map[string]int{}
 		for _, p := range puts {
 			if p.path == "/elsewhere" {
+				// a redirect is not the distributor's answer: nothing may be sent to the location it names (for 307/308 the
+				// HTTP client would replay the PUT with the checkpoint there)
+				chk("C15.redir", false, fmt.Sprintf("%s: the redirect was followed with a %s (%d bytes) to %s", name, p.method, len(p.body), p.path))
 				continue
 			}
 			var id string
@@ -132,6 +136,38 @@ func TestVerifReplayDistribute(t *testing.T) {
 			}
 		}
 		chk("C15.6", seen[logs[0].cfg.ID] == 1, fmt.Sprintf("%s: the valid log was pushed %d times (other logs' failures must not stop it)", name, seen[logs[0].cfg.ID]))
+	}
+	// a redirect answered to one log must not hold up the next one: with a transport capped at one connection per host an
+	// unclosed response body keeps the connection checked out
+	{
+		sk, pk, _ := note.GenerateKey(rand.Reader, "logB.example")
+		sB, _ := note.NewSigner(sk)
+		vB, _ := note.NewVerifier(pk)
+		lB := lg{config.Log{ID: log.ID("logB.example/origin"), Origin: "logB.example/origin", Verifier: vB}, sB}
+		both := map[string][]byte{logs[0].cfg.ID: cps[logs[0].cfg.ID], lB.cfg.ID: mk(lB, lB.sign, wS)}
+		pathB := "/distributor/v0/logs/" + lB.cfg.ID + "/byWitness/" + url.PathEscape(wV.Name()) + "/checkpoint"
+		nB := 0
+		srv := httptest.NewServer(http.HandlerFunc(func(w http.ResponseWriter, r *http.Request) {
+			_, _ = io.ReadAll(r.Body)
+			switch {
+			case r.URL.Path == "/elsewhere":
+				w.WriteHeader(200)
+				_, _ = w.Write(bytes.Repeat([]byte("x"), 100000))
+			case r.URL.EscapedPath() == pathB:
+				nB++
+				w.WriteHeader(200)
+			default:
+				http.Redirect(w, r, "/elsewhere", http.StatusFound)
+			}
+		}))
+		capped := &http.Client{Transport: &http.Transport{MaxConnsPerHost: 1}}
+		d, _ := NewDistributor(srv.URL, capped, []config.Log{logs[0].cfg, lB.cfg}, wV, vrW{both})
+		ctx, cancel := context.WithTimeout(context.Background(), 3*time.Second)
+		_ = d.DistributeOnce(ctx)
+		cancel()
+		srv.Close()
+		chk("C15.leak", nB == 1, fmt.Sprintf("after a redirect answered to the first log, the second log's checkpoint reached the distributor %d times (want 1): the first response's body was left open and holds the only connection", nB))
+		chk("C15.6", nB == 1, "a failure for one log stopped the attempt for the next one")
 	}
 	// all logs valid and distributor fine => no error
 	ok := map[string][]byte{logs[0].cfg.ID: cps[logs[0].cfg.ID]}
